@@ -145,7 +145,10 @@ theorem psV3Connack_goodV {c : C} (h : GoodV c.s) (hb : Headroom c.s) (p : Pkt) 
   · split
     · simp only [push_s, cancelTimers_s]; exact h
     · apply sendPostProcess_goodV
-      exact sendStored_goodV (c := { (c.push (.send p none)) with s := { c.s with status := .connected } }) h hb
+      split
+      · exact sendStored_goodV (c := { (c.push (.send p none)) with s := { c.s with status := .connected } }) h hb
+      · exact clearStoreRelated_goodV
+          (c := { (c.push (.send p none)) with s := { c.s with status := .connected } }) h
 
 theorem psV5Connack_goodV {c : C} (h : GoodV c.s) (hb : Headroom c.s) (p : Pkt) :
     GoodV (psV5Connack c p).s := by
@@ -163,10 +166,15 @@ theorem psV5Connack_goodV {c : C} (h : GoodV c.s) (hb : Headroom c.s) (p : Pkt) 
           unfold Headroom
           rw [propsFold_frame (fun s => s.store) connackSendProp_store]; exact hb
         apply sendPostProcess_goodV
-        exact sendStored_goodV
-          (c := { ((propsFold connackSendProp c p.props).push (.send p none)) with
-                  s := { (propsFold connackSendProp c p.props).s with status := .connected } })
-          h1 h2
+        split
+        · exact sendStored_goodV
+            (c := { ((propsFold connackSendProp c p.props).push (.send p none)) with
+                    s := { (propsFold connackSendProp c p.props).s with status := .connected } })
+            h1 h2
+        · exact clearStoreRelated_goodV
+            (c := { ((propsFold connackSendProp c p.props).push (.send p none)) with
+                    s := { (propsFold connackSendProp c p.props).s with status := .connected } })
+            h1
       · simp only [hrc, if_false, ne_eq, not_false_eq_true, if_true, push_s, cancelTimers_s]
         exact h
 
